@@ -652,13 +652,39 @@ def graph_program(r):
         return list(range(nnamed))
 
     kinds_used = {}
+    # Half of the programs are sparse: one or two call chains through the functions in an order unrelated to the
+    # declaration order (every link against the declaration order costs the fixpoint iteration one more pass), each
+    # link of a random edge kind, ending in one blocking operation; everything else stays empty.  The other half are
+    # dense random graphs.
+    chain_next = {}
+    sparse = r.random() < 0.5
+    if sparse:
+        for _ in range(r.randint(1, 2)):
+            pool = [j for j in range(nnamed) if j not in chain_next]
+            r.shuffle(pool)
+            path = []
+            for j in pool[:r.randint(2, 6)]:
+                if not path or j in targets_for(path[-1]):
+                    path.append(j)
+            for a, b in zip(path, path[1:]):
+                chain_next[a] = b
+            if path:
+                chain_next[path[-1]] = -1        # the end of the chain blocks directly
     for i in range(nnamed):
         nd = nodes[i]
         # mostly one statement per function, so that a function's flag depends on that single edge / operation
         nst = r.choice([0, 1, 1, 1, 1, 2, 2, 3])
+        if sparse:
+            nst = 1 if i in chain_next else 0
         for _ in range(nst):
             c = r.random()
             tg = r.choice(targets_for(i))
+            if sparse:
+                if chain_next[i] == -1:
+                    c = r.choice([0.72, 0.78, 0.86, 0.62, 0.99])      # a blocking operation of some kind
+                else:
+                    tg = chain_next[i]
+                    c = r.choice([0.1, 0.4, 0.5, 0.5, 0.95])          # static / defer / literal call / deferred literal
             ct = calltext(i, tg)
 
             def use(kind):
@@ -672,14 +698,14 @@ def graph_program(r):
             elif c < 0.54:
                 use("literal-call")
                 li = len(nodes) + len(lits)
-                lits.append(dict(direct=False, callees=[tg]))
+                lits.append(dict(direct=False, callees=[tg], owner=i))
                 nd["body"].append("func() { %s }()" % ct); nd["callees"].append(li)
             elif c < 0.60:
                 use("literal-var"); nd["body"].append("fv%d := func() { %s }; _ = fv%d" % (len(nd["body"]), ct, len(nd["body"])))
-                lits.append(dict(direct=False, callees=[tg]))
+                lits.append(dict(direct=False, callees=[tg], owner=i))
             elif c < 0.66:
                 use("var-call"); nd["body"].append("fx%d := func() {}; fx%d()" % (len(nd["body"]), len(nd["body"])))
-                lits.append(dict(direct=False, callees=[]))
+                lits.append(dict(direct=False, callees=[], owner=i))
                 nd["direct"] = True
             elif c < 0.71:
                 use("iface-call"); nd["body"].append("var ii interface{ M() } = &%sS2{}; ii.M()" % ("" if nd["pkg"] == "q" else "q."))
@@ -699,7 +725,7 @@ def graph_program(r):
             elif c < 0.97:
                 use("defer-literal")
                 li = len(nodes) + len(lits)
-                lits.append(dict(direct=False, callees=[tg]))
+                lits.append(dict(direct=False, callees=[tg], owner=i))
                 nd["body"].append("defer func() { %s }()" % ct); nd["callees"].append(li)
             else:
                 use("method-value-call"); nd["body"].append("mvv%d := (&%sS2{}).M; mvv%d()" % (len(nd["body"]), "" if nd["pkg"] == "q" else "q.", len(nd["body"])))
@@ -722,7 +748,12 @@ def graph_program(r):
     # main references everything so that nothing is unused; never runs any of it
     msrc.append("func main() {\n\tif ch != nil {\n%s\n\t}\n}\n" % "\n".join("\t\t" + nodes[i]["call_main"] for i in range(nnamed)))
     graph = [(nd["direct"], nd["callees"]) for nd in nodes] + [(l["direct"], l["callees"]) for l in lits]
-    return dict(files={"main.go": "\n".join(msrc), "q/q.go": "\n".join(qsrc)}, names=[nd["decl"] for nd in nodes],
+    # visiting order of the analysis (Info.allInfos, packages in dependency order): a function, then its literals
+    order = []
+    for i in range(nnamed):
+        order.append(i)
+        order += [nnamed + k for k, l in enumerate(lits) if l["owner"] == i]
+    return dict(order=order, files={"main.go": "\n".join(msrc), "q/q.go": "\n".join(qsrc)}, names=[nd["decl"] for nd in nodes],
                 graph=graph, nnamed=nnamed, kinds=kinds_used)
 
 
